@@ -1,6 +1,10 @@
 package main
 
 func init() {
+	registerProp(&PropCfg{ID: "C05", Families: []string{"POST", "SAFE", "FRAME"},
+		Composition: "induction over the evaluation from FindPropAlongProtos/FindPropOwner/evalProp to every `o.name`; acyclicity of prototype chains is not needed for partial correctness; ancestors/bro/kindOf? are native one-liners over proto/bear (read, not verified)"})
+	registerProp(&PropCfg{ID: "C11", Families: []string{"POST", "SAFE", "FRAME"}, Replay: "index",
+		Composition: "s[i] / s[a:b:c] reach findElemInArr/findElemInStr through the `at` property (native Arr.pangaea/Str.pangaea one-liners) and evalPropCall; that dispatch is C05's"})
 	registerProp(&PropCfg{ID: "C10", Families: []string{"POST", "SAFE", "FRAME"}, Replay: "intop",
 		Composition: "the operator built-ins are reached from `a op b` through evalInfix -> builtInCallProp with args [a, b] (C05/C03 contracts); Comparable's derived operators and Int#/ ** on floats are native/uninterpreted"})
 }
